@@ -75,8 +75,8 @@ Qed.
         well-formed derivation ever shows a foreign generator *)
 Definition wf_op (w : world) (o : op) : Prop :=
   match o with
-  | Derive d => wf_term w d
-  | DeriveC d => wf_cterm d
+  | Derive d | ShuffleDo d _ => wf_term w d
+  | DeriveC d | RandomCell d _ | RandomAgent d _ => wf_cterm d
   | _ => True
   end.
 
@@ -97,10 +97,43 @@ Proof.
     destruct (_ && _); reflexivity.
   - destruct (lpos_of _ _); reflexivity.
   - destruct (find_agent _ _); [|reflexivity]. destruct (choose_empty _ _ _ _ _); reflexivity.
+  - destruct (eval w d); [|reflexivity]. destruct (shuffle_apply _ _); reflexivity.
+  - destruct (ceval w d); [|reflexivity]. destruct (choice_from _ _); reflexivity.
+  - destruct (ceval w d); [|reflexivity]. destruct (choice_from _ _); reflexivity.
+  - destruct (try_random _ _); reflexivity.
+  - destruct (lpos_of _ _); [|reflexivity]. destruct (filter _ ps); [reflexivity|].
+    destruct (one_of_choice _ _ _ _ _); reflexivity.
 Qed.
 
 Lemma obs_err_head k : 0 < k -> hd 0 (obs_err k) <> OTHER_GEN.
-Proof. intros Hk. unfold obs_err, OTHER_GEN. destruct (k =? E_NOEMPTY); cbn; lia. Qed.
+Proof.
+  intros Hk. unfold obs_err, OTHER_GEN. destruct (k =? E_NOEMPTY); [cbn; lia|].
+  destruct (k =? E_EMPTYSEQ); cbn; lia.
+Qed.
+
+Lemma shuffle_err_pos {A : Type} (l : list A) idxs e : shuffle_apply l idxs = Err e -> 0 < e.
+Proof. unfold shuffle_apply. destruct (is_index_perm _ _); intros H; inversion H. unfold E_ILLEGAL; lia. Qed.
+
+Lemma choice_err_pos {A : Type} (l : list A) k e : choice_from l k = Err e -> 0 < e.
+Proof.
+  unfold choice_from. destruct l; [intros H; inversion H; unfold E_EMPTYSEQ; lia|].
+  destruct (znth _ _); intros H; inversion H. unfold E_ILLEGAL; lia.
+Qed.
+
+Lemma try_random_err_pos w tape e : try_random w tape = Err e -> 0 < e.
+Proof.
+  induction tape as [|c t IH]; cbn; [intros H; inversion H; unfold E_ILLEGAL; lia|].
+  destruct (negb _); [intros H; inversion H; unfold E_ILLEGAL; lia|].
+  destruct (cell_empty w c); [destruct t; intros H; inversion H; unfold E_ILLEGAL; lia|exact IH].
+Qed.
+
+Lemma one_of_err_pos cur ps closest idxs k e : one_of_choice cur ps closest idxs k = Err e -> 0 < e.
+Proof.
+  unfold one_of_choice. destruct closest.
+  - destruct (shuffle_apply ps idxs) eqn:E; [|intros H; inversion H; subst; eapply shuffle_err_pos; exact E].
+    destruct (znth _ _); intros H; inversion H. unfold E_ILLEGAL; lia.
+  - destruct (znth _ _); intros H; inversion H. unfold E_ILLEGAL; lia.
+Qed.
 
 Lemma eval_err_pos w d e : eval w d = Err e -> 0 < e.
 Proof.
@@ -143,7 +176,7 @@ Proof.
     + apply obs_err_head. eapply ceval_err_pos. exact E.
   - cbn. discriminate.
   - destruct (find_agent _ _); cbn; [discriminate|exact HE2].
-  - destruct (znth _ _); cbn; [discriminate|exact HE3].
+  - destruct (znth _ _); cbn; [rewrite Hs; discriminate|exact HE3].
   - destruct (find_agent _ _); [|exact HE2]. destruct (lpos_of _ _); [exact HE2|].
     destruct (_ && _); cbn; [discriminate|exact HE2].
   - destruct (lpos_of _ _); cbn; [discriminate|exact HE2].
@@ -158,6 +191,20 @@ Proof.
       destruct (l_is_empty w q); [destruct t; inversion E; unfold E_ILLEGAL; lia|auto].
     + destruct (negb _); [inversion E; unfold E_ILLEGAL; lia|].
       destruct (znth _ _); inversion E; unfold E_ILLEGAL; lia.
+  - destruct (eval w d) as [c|e] eqn:E; [|apply obs_err_head; eapply eval_err_pos; exact E].
+    destruct (shuffle_apply _ _) eqn:E2; [|apply obs_err_head; eapply shuffle_err_pos; exact E2].
+    cbn. rewrite (gen_propagates w d c Hs Hwf E). discriminate.
+  - destruct (ceval w d) as [c|e] eqn:E; [|apply obs_err_head; eapply ceval_err_pos; exact E].
+    destruct (choice_from _ _) eqn:E2; [|apply obs_err_head; eapply choice_err_pos; exact E2].
+    cbn. rewrite (cgen_propagates w d c Hs Hwf E). discriminate.
+  - destruct (ceval w d) as [c|e] eqn:E; [|apply obs_err_head; eapply ceval_err_pos; exact E].
+    destruct (choice_from _ _) eqn:E2; [|apply obs_err_head; eapply choice_err_pos; exact E2].
+    cbn. rewrite (cgen_propagates w d c Hs Hwf E). discriminate.
+  - destruct (try_random _ _) eqn:E; [|apply obs_err_head; eapply try_random_err_pos; exact E].
+    cbn. rewrite Hs. discriminate.
+  - destruct (lpos_of _ _); [|exact HE2]. destruct (filter _ ps); [cbn; discriminate|].
+    destruct (one_of_choice _ _ _ _ _) eqn:E; [cbn; discriminate|].
+    apply obs_err_head. eapply one_of_err_pos. exact E.
 Qed.
 
 Lemma history_no_foreign srt ops : forall w,
@@ -352,7 +399,7 @@ Qed.
 Lemma znth_of_nat {A : Type} (l : list A) i : znth l (Z.of_nat i) = nth_opt l i.
 Proof. unfold znth. destruct (Z.ltb_spec (Z.of_nat i) 0); [lia|]. rewrite Nat2Z.id. reflexivity. Qed.
 
-Lemma pick_all_seq (l : list Z) : forall pre,
+Lemma pick_all_seq {A : Type} (l : list A) : forall pre,
   flat_map (fun i => match znth (pre ++ l) i with Some x => [x] | None => [] end)
            (map Z.of_nat (seq (length pre) (length l))) = l.
 Proof.
@@ -365,7 +412,7 @@ Proof.
   rewrite app_length in IH. cbn in IH. rewrite Nat.add_1_r in IH. exact IH.
 Qed.
 
-Lemma shuffle_is_permutation l idxs l' :
+Lemma shuffle_is_permutation {A : Type} (l : list A) idxs l' :
   shuffle_apply l idxs = Ok l' -> Permutation l l'.
 Proof.
   unfold shuffle_apply. destruct (is_index_perm _ _) eqn:E; [|discriminate].
@@ -450,6 +497,12 @@ Proof.
   - destruct (find_agent _ _); [|auto]. destruct (lpos_of _ _); [auto|]. destruct (_ && _); cbn; auto.
   - destruct (lpos_of _ _); cbn; auto.
   - destruct (find_agent _ _); [|auto]. destruct (choose_empty _ _ _ _ _); cbn; auto.
+  - destruct (eval w d); [|auto]. destruct (shuffle_apply _ _); cbn; auto.
+  - destruct (ceval w d); [|auto]. destruct (choice_from _ _); cbn; auto.
+  - destruct (ceval w d); [|auto]. destruct (choice_from _ _); cbn; auto.
+  - destruct (try_random _ _); cbn; auto.
+  - destruct (lpos_of _ _); [|auto]. destruct (filter _ ps); [auto|].
+    destruct (one_of_choice _ _ _ _ _); cbn; auto.
 Qed.
 
 Lemma registry_order_is_creation_order srt ops : forall w,
@@ -472,10 +525,76 @@ Qed.
 
 (* ================================================================== DiscreteSpace.select_random_empty_cell *)
 Lemma select_random_empty_sound srt w k c :
-  snd (step srt w (SelectRandomEmpty k)) = [0; c] ->
+  snd (step srt w (SelectRandomEmpty k)) = [w_sgen w; c] ->
   In c (map fst (w_cells w)) /\ cell_empty w c = true.
 Proof.
   cbn [step]. destruct (znth _ _) as [c'|] eqn:E; cbn.
   - intros H; inversion H; subst. apply znth_In in E. apply filter_In in E. exact E.
-  - unfold obs_err. destruct (E_ILLEGAL =? E_NOEMPTY); discriminate.
+  - vm_compute. discriminate.
+Qed.
+
+Lemma try_random_sound w tape c :
+  try_random w tape = Ok c -> In c (map fst (w_cells w)) /\ cell_empty w c = true.
+Proof.
+  induction tape as [|x t IH]; cbn; [discriminate|].
+  destruct (zmem x (map fst (w_cells w))) eqn:Em; cbn; [|discriminate].
+  destruct (cell_empty w x) eqn:Ee; [|exact IH].
+  destruct t; [|discriminate]. intros H; inversion H; subst. split; [apply zmem_In; exact Em|exact Ee].
+Qed.
+
+(* every choice is an element of the sequence it was drawn from, at the index the generator produced *)
+Lemma choice_from_sound {A : Type} (l : list A) k x : choice_from l k = Ok x -> In x l.
+Proof.
+  unfold choice_from. destruct l; [discriminate|]. destruct (znth _ _) eqn:E; [|discriminate].
+  intros H; inversion H; subst. eapply znth_In. exact E.
+Qed.
+
+(* ---- move_agent_to_one_of(selection="closest"): whatever the shuffle did, the candidates are exactly nearest *)
+Lemma closest_scan_spec cur l : forall best acc,
+  (match best with None => acc = [] | Some m => forall p, In p acc -> dist2 p cur = m end) ->
+  forall p, In p (closest_scan cur l best acc) ->
+    (In p acc \/ In p l) /\ (forall q, In q l -> dist2 p cur <= dist2 q cur) /\
+    (match best with Some m => dist2 p cur <= m | None => True end).
+Proof.
+  induction l as [|x t IH]; intros best acc Hinv p Hp; cbn [closest_scan] in Hp.
+  - split; [left; exact Hp|]. split; [intros q []|]. destruct best; [|exact I]. rewrite (Hinv p Hp). lia.
+  - destruct best as [m|].
+    + destruct (Z.ltb_spec (dist2 x cur) m) as [Hlt|Hge].
+      * apply IH in Hp; [|cbn; intros q [<-|[]]; reflexivity].
+        destruct Hp as [Hin [Hmin Hle]]. split; [|split].
+        -- right. destruct Hin as [[<-|[]]|Hin]; [left; reflexivity|right; exact Hin].
+        -- intros q [<-|Hq]; [exact Hle|apply Hmin; exact Hq].
+        -- lia.
+      * destruct (Z.eqb_spec (dist2 x cur) m) as [Heq|Hne].
+        -- apply IH in Hp; [|intros q Hq; apply in_app_or in Hq; destruct Hq as [Hq|[<-|[]]]; [apply Hinv; exact Hq|exact Heq]].
+           destruct Hp as [Hin [Hmin Hle]]. split; [|split].
+           ++ destruct Hin as [Hin|Hin]; [|right; right; exact Hin].
+              apply in_app_or in Hin. destruct Hin as [Hin|[<-|[]]]; [left; exact Hin|right; left; reflexivity].
+           ++ intros q [<-|Hq]; [lia|apply Hmin; exact Hq].
+           ++ exact Hle.
+        -- apply IH in Hp; [|exact Hinv].
+           destruct Hp as [Hin [Hmin Hle]]. split; [|split].
+           ++ destruct Hin as [Hin|Hin]; [left; exact Hin|right; right; exact Hin].
+           ++ intros q [<-|Hq]; [lia|apply Hmin; exact Hq].
+           ++ exact Hle.
+    + apply IH in Hp; [|cbn; intros q [<-|[]]; reflexivity].
+      destruct Hp as [Hin [Hmin Hle]]. split; [|split; [|exact I]].
+      * right. destruct Hin as [[<-|[]]|Hin]; [left; reflexivity|right; exact Hin].
+      * intros q [<-|Hq]; [exact Hle|apply Hmin; exact Hq].
+Qed.
+
+Lemma one_of_choice_sound cur ps closest idxs k p :
+  one_of_choice cur ps closest idxs k = Ok p ->
+  In p ps /\ (closest = true -> forall q, In q ps -> dist2 p cur <= dist2 q cur).
+Proof.
+  unfold one_of_choice. destruct closest.
+  - destruct (shuffle_apply ps idxs) as [l|] eqn:Es; [|discriminate].
+    destruct (znth _ _) as [x|] eqn:En; [|discriminate]. intros H; inversion H; subst x.
+    apply znth_In in En. apply closest_scan_spec in En; [|reflexivity].
+    destruct En as [Hin [Hmin _]]. pose proof (shuffle_is_permutation ps idxs l Es) as Hperm.
+    split.
+    + destruct Hin as [[]|Hin]. eapply Permutation_in; [apply Permutation_sym; exact Hperm|exact Hin].
+    + intros _ q Hq. apply Hmin. eapply Permutation_in; [exact Hperm|exact Hq].
+  - destruct (znth _ _) as [x|] eqn:En; [|discriminate]. intros H; inversion H; subst x.
+    split; [eapply znth_In; exact En|discriminate].
 Qed.
